@@ -203,7 +203,7 @@ def search(ctx, budget, sound, exact, seed_off):
     rng = vlib.Rng(ctx.seed + seed_off)
     out = []
     n = 0
-    for _ in range(2500 * budget):
+    for _ in range(6000 * budget):
         case_ = rand_case(rng)
         n += vlib.limited(lambda: law_case(case_, out, sound=sound, exact=exact), 10, 0)
     best, hist = {}, {}
